@@ -432,3 +432,73 @@ where
         f(r, ctx, l, &rec)
     });
 }
+
+/// Every *repeatable* element of the grammar repeated exactly k times for k at the
+/// narrow-counter boundaries 2^8 and 2^16 (a `u8`/`u16` counter, a staged fast path or a
+/// table index that wraps shows exactly there), each in a message that is otherwise
+/// minimal and valid under the configuration given.
+pub const REPEAT_KS: [usize; 8] = [254, 255, 256, 257, 65_534, 65_535, 65_536, 65_537];
+pub const N_REPEAT_ELEMS: usize = 22;
+
+pub fn repeat_case(elem: usize, k: usize) -> (Entry, u8, Vec<u8>, &'static str) {
+    use crate::real::*;
+    let rep = |unit: &[u8]| -> Vec<u8> {
+        let mut v = Vec::with_capacity(unit.len() * k);
+        for _ in 0..k {
+            v.extend_from_slice(unit);
+        }
+        v
+    };
+    let cat = |parts: &[&[u8]]| parts.concat();
+    match elem % N_REPEAT_ELEMS {
+        0 => (Entry::ReqParse, 0, cat(&[&rep(b"\r\n"), b"GET / HTTP/1.1\r\nA: b\r\n\r\n"]), "leading CRLF before a request"),
+        1 => (Entry::RespParse, 0, cat(&[&rep(b"\n"), b"HTTP/1.1 200 OK\r\nA: b\r\n\r\n"]), "leading LF before a response"),
+        2 => (Entry::ReqCfg, C_MULTISPACE_REQ, cat(&[b"GET", &rep(b" "), b"/ HTTP/1.1\r\nA: b\r\n\r\n"]), "SP between method and target (multi-space option)"),
+        3 => (Entry::ReqCfg, C_MULTISPACE_REQ, cat(&[b"GET /", &rep(b" "), b"HTTP/1.1\r\nA: b\r\n\r\n"]), "SP between target and version (multi-space option)"),
+        4 => (Entry::RespCfg, C_MULTISPACE_RESP, cat(&[b"HTTP/1.1", &rep(b" "), b"200 OK\r\nA: b\r\n\r\n"]), "SP after the version (multi-space option)"),
+        5 => (Entry::RespCfg, C_MULTISPACE_RESP, cat(&[b"HTTP/1.1 200", &rep(b" "), b"OK\r\nA: b\r\n\r\n"]), "SP after the code (multi-space option)"),
+        6 => (Entry::RespParse, 0, cat(&[b"HTTP/1.1 200 ", &rep(b" "), b"OK\r\nA: b\r\n\r\n"]), "SP at the start of the reason (default config: part of the reason)"),
+        7 => (Entry::Headers, 0, cat(&[b"A:", &rep(b" "), b"b\r\nC: d\r\n\r\n"]), "SP between colon and value"),
+        8 => (Entry::Headers, 0, cat(&[b"A:", &rep(b"\t"), b"b\r\nC: d\r\n\r\n"]), "HTAB between colon and value"),
+        9 => (Entry::Headers, 0, cat(&[b"A: b", &rep(b" \t"), b"\r\nC: d\r\n\r\n"]), "trailing SP HTAB after the value"),
+        10 => (Entry::Headers, 0, cat(&[b"A: b", &rep(b" "), b"c\r\nC: d\r\n\r\n"]), "SP inside the value"),
+        11 => (Entry::RespCfg, C_SPACES_AFTER_NAME, cat(&[b"HTTP/1.1 200 OK\r\nA", &rep(b" "), b": b\r\nC: d\r\n\r\n"]), "SP between name and colon (option)"),
+        12 => (Entry::RespCfg, C_MULTILINE, cat(&[b"HTTP/1.1 200 OK\r\nA: b", &rep(b"\r\n c"), b"\r\nC: d\r\n\r\n"]), "continuation lines of one folded value"),
+        13 => (Entry::RespCfg, C_MULTILINE, cat(&[b"HTTP/1.1 200 OK\r\nA: b", &rep(b"\r\n "), b"\r\nC: d\r\n\r\n"]), "whitespace-only continuation lines after a value"),
+        14 => (Entry::RespCfg, C_MULTILINE, cat(&[b"HTTP/1.1 200 OK\r\nA:", &rep(b"\r\n\t"), b"\r\n b\r\nC: d\r\n\r\n"]), "whitespace-only continuation lines before the value"),
+        15 => (Entry::ReqCfg, C_IGNORE_REQ, cat(&[b"GET / HTTP/1.1\r\n", &rep(b"bad\n"), b"A: b\r\n\r\n"]), "ignored invalid lines (request)"),
+        16 => (Entry::RespCfg, C_IGNORE_RESP | C_SPACE_BEFORE_FIRST, cat(&[b"HTTP/1.1 200 OK\r\n", &rep(b" x y\r\n"), b"A: b\r\n\r\n"]), "ignored whitespace-led lines before the first header"),
+        17 => (Entry::RespCfg, C_SPACE_BEFORE_FIRST, cat(&[b"HTTP/1.1 200 OK\r\n", &rep(b" "), b"A: b\r\nC: d\r\n\r\n"]), "SP before the first header name (option)"),
+        18 => (Entry::Chunk, 0, cat(&[b"1f", &rep(b" "), b"\r\n"]), "SP after the chunk size"),
+        19 => (Entry::Chunk, 0, cat(&[b"1f;", &rep(b"x"), b"\r\nrest"]), "chunk extension bytes"),
+        20 => (Entry::Chunk, 0, cat(&[b"1f;", &rep(b";"), b"\r\n"]), "semicolons in a chunk extension"),
+        _ => (Entry::ReqParse, 0, cat(&[b"GET /", &rep(b"\xc3\xa9"), b" HTTP/1.1\r\nA: b\r\n\r\n"]), "two-byte UTF-8 characters in the target"),
+    }
+}
+
+pub fn repeat_boundary_phase<F>(r: &Runner, sub: &'static str, accept: &(dyn Fn(Entry, u8) -> bool + Sync), f: F)
+where
+    F: Fn(&Runner, &mut Ctx, &mut Local, &CaseRec) -> Result<(), Violation> + Sync,
+{
+    let prefix_check = sub == "prefix" || sub == "partial-prefixes";
+    let nks = if prefix_check { 4 } else { REPEAT_KS.len() };
+    let total = (N_REPEAT_ELEMS * nks * 2) as u64;
+    r.par_enum("every repeatable element (leading lines, delimiter SP runs, OWS, inner / trailing whitespace, name-colon whitespace, folds, ignored lines, chunk whitespace / extension, multi-byte target characters) repeated exactly k times, k in {254..257, 65534..65537} × {whole, cut inside the run}", total, |ctx, l, idx| {
+        let cut = idx % 2 == 1;
+        let x = idx / 2;
+        let elem = (x % N_REPEAT_ELEMS as u64) as usize;
+        let k = REPEAT_KS[(x / N_REPEAT_ELEMS as u64) as usize];
+        let (entry, cfg, mut buf, _what) = repeat_case(elem, k);
+        if !accept(entry, cfg) {
+            return Ok(());
+        }
+        if cut {
+            // end the buffer inside the repeated run (Partial with the counter mid-way)
+            let n = buf.len();
+            buf.truncate(n - n / 3);
+        }
+        let lines = if buf.len() < 5000 { 16 } else { buf.iter().filter(|&&c| c == b'\n').count() + 8 };
+        let rec = CaseRec::new(sub, entry, cfg, lines.min(70_000).max(8), buf);
+        f(r, ctx, l, &rec)
+    });
+}
